@@ -241,7 +241,7 @@ func scriptName(scripts [][]op) string {
 
 func scenarios() []hx.Scenario {
 	alpha := []op{
-		{'E', "a", 10}, {'E', "a", 20}, {'E', "b", 10}, {'E', "b", 30},
+		{'E', "a", 10}, {'E', "a", 20}, {'E', "b", 10}, {'E', "b", 30}, {'E', "b", 0}, // (b@0 is already due: the run-at-once path)
 		{'D', "a", 0}, {'D', "b", 0}, {'W', "", 15}, {'C', "", 0},
 	}
 	var seqs [][]op
